@@ -1065,7 +1065,20 @@ func (in *Interp) exec(fr *Frame, ins ssa.Instruction) {
 		in.objSeq++
 		in.set(fr, x, &ChanObj{Cap: in.concInt(in.get(fr, x.Size), "chan size"), ET: x.Type().Underlying().(*types.Chan).Elem(), id: in.objSeq})
 	case *ssa.MakeSlice:
-		in.set(fr, x, in.makeSlice(x.Type().Underlying().(*types.Slice).Elem(), in.get(fr, x.Len), in.get(fr, x.Cap)))
+		lenV, capV := in.get(fr, x.Len), in.get(fr, x.Cap)
+		sameLC := lenV == capV
+		if lt, ok := lenV.(*Term); ok && lt.W < 64 {
+			_, signed, _ := intWidth(x.Len.Type())
+			lenV = in.tb.Resize(lt, 64, signed)
+		}
+		if ct, ok := capV.(*Term); ok && ct.W < 64 {
+			_, signed, _ := intWidth(x.Cap.Type())
+			capV = in.tb.Resize(ct, 64, signed)
+		}
+		if sameLC {
+			capV = lenV
+		}
+		in.set(fr, x, in.makeSlice(x.Type().Underlying().(*types.Slice).Elem(), lenV, capV))
 	case *ssa.MapUpdate:
 		in.mapUpdate(in.get(fr, x.Map), in.get(fr, x.Key), in.get(fr, x.Value))
 	case *ssa.Range:
